@@ -34,7 +34,13 @@ THEOREMS = [
     'IblVerif.C10.read_sync_empty_selection',
     'IblVerif.C10.read_sync_no_meta_counterexample',
 ]
-RULE = ('(a) all 65 536 int16 sync samples through split_sync, every run, in three array forms (1-D int16, (n,1) int16, uint16); '
+RULE = ('INPUT FORMS are drawn independently of the values (tags form:/seqform:/readform:/split:) for ~60 % of the cases: dtype '
+        '(int8/16/32/64, float32/64), memory layout (C, Fortran, transposed view, strided view, negative stride, read-only), call spelling '
+        '(keywords / positional in the signature order / mixed / defaults), step as Python int / float or np.int8/16/64, np.uint8, np.float32/64, '
+        'axis as int or np.int64 and as 0 / 1 / -1 / -2, read_sync slices from Python or NumPy ints, threshold as float / np.float32 / np.float64, '
+        'floor_percentile as int / np.int64, positional or keyword, file name as Path or str; the model always receives the mathematical values. '
+        '(a) all 65 536 int16 sync samples through split_sync, every run, in 12 array forms (int16 1-D and (n,1), uint16, int32 holding the signed '
+        'values or the 0..65535 patterns, int64, strided / negative-stride / column-of-C / column-of-F / (n,1)-slice views, read-only); '
         '(b) 1-D trains: lengths 0..48 biased to 0..3 and to events on the first/last sample; 0/1 trains as int8 (what split_sync '
         'returns) and int16/int32/int64/float64, multi-level integer trains with step thresholds at/around the level differences, '
         'analog float64/int64 traces with samples below / exactly at / above the threshold; fronts, rises, falls with default and '
@@ -52,7 +58,8 @@ RULE = ('(a) all 65 536 int16 sync samples through split_sync, every run, in thr
 ASSUMPTIONS = [
     'host is little-endian (the byte view of an int16 word is low byte first); asserted each run',
     'domain: one 16-bit digital word per sample (every imec stream; nidq with snsMnMaXaDw[3] = 1); a nidq stream with two digital words is outside the property',
-    'front detection is checked on signed-integer and float arrays (split_sync / read_sync return int8); unsigned and boolean arrays are outside the property (np.diff wraps / xors there)',
+    'front detection is checked on signed-integer and float NumPy arrays (split_sync / read_sync return int8); unsigned and boolean arrays are outside the property (on the unchanged code np.diff wraps / xors there: uint8 gives polarity 255 and makes rises and falls both return every edge; bool loses the polarity and falls raises TypeError); plain Python lists are not supported by the API (falls(list) raises TypeError: bad operand type for unary -) and are not generated',
+    'values, not representations, are compared: result dtypes are not part of the property (split_sync / read_sync results are compared as 0/1 values); NumPy scalar rules decide which threshold value a comparison sees (Python float vs float32 data -> float32(step); np.float64 scalar -> exact; np.float32(1.2) IS 1.2000000477) and model and oracle use that value',
     'integer trains stay far from the dtype limits (no wrap-around in np.diff); int8 is used for 0/1 trains only',
     'analog mode follows the docstring: the line is high when the sample is strictly greater than `step`',
     'the model is a function of the data a caller passes in: results of several calls on one array object are compared with the model of the ORIGINAL values; a modified argument by itself is only tagged (the property does not say inputs are left untouched), its consequence on later results is what counts',
@@ -120,11 +127,59 @@ def _canon_model_fronts(ans, is_float, two_d):
     return head + ' sign=' + ','.join(_pol(dec(t)) for t in sg.split(','))
 
 
-def _np_array(x, dtype, shape=None):
+def _np_array(x, dtype, shape=None, form=None):
+    """The array a caller would hold: the VALUES x in the memory layout named by the form (same values in every layout)."""
     a = np.array(x, dtype=dtype)
     if shape is not None:
         a = a.reshape(shape)
+    lay = (form or {}).get('layout', 'C')
+    if lay == 'F' and a.ndim == 2:
+        a = np.asfortranarray(a)
+    elif lay == 'T' and a.ndim == 2:            # transposed view of the C-contiguous transpose
+        a = np.ascontiguousarray(a.T).T
+    elif lay == 'strided':                      # every second element of a larger buffer (gaps hold a sentinel)
+        big = np.full(tuple(2 * k for k in a.shape), 7, dtype=a.dtype)
+        sel = tuple(slice(None, None, 2) for _ in a.shape)
+        big[sel] = a
+        a = big[sel]
+    elif lay == 'negstride':                    # view with a negative stride along the first axis
+        a = np.ascontiguousarray(a[::-1])[::-1]
+    elif lay == 'readonly':
+        a.setflags(write=False)
     return a
+
+
+def _step_obj(step, form):
+    """The object passed as `step`: Python int/float, or a NumPy scalar of the type named by the form."""
+    t = (form or {}).get('step_type', 'py')
+    if t == 'py':
+        return step
+    if t == 'pyfloat':
+        return float(step)
+    return getattr(np, t)(step)
+
+
+def _axis_obj(axis, form):
+    return np.int64(axis) if (form or {}).get('axis_type') == 'np.int64' else axis
+
+
+def _draw_form(rng, ndim, dtype, steps, fns):
+    """A representation drawn independently of the values: memory layout, call spelling, type of step / axis."""
+    lay = str(rng.choice(['C', 'strided', 'negstride', 'readonly'] if ndim == 1 else ['C', 'F', 'T', 'strided', 'negstride', 'readonly']))
+    sp = str(rng.choice(['kw', 'pos', 'mixed']))
+    integral = all(float(st).is_integer() and abs(st) < 100 for st in steps)
+    types = ['py', 'float64', 'float32', 'pyfloat']
+    if integral:
+        types += ['int64', 'int16', 'int8']
+        if 'falls' not in fns and all(st >= 0 for st in steps):
+            types.append('uint8')
+    return {'layout': lay, 'spelling': sp, 'step_type': str(rng.choice(types)), 'axis_type': str(rng.choice(['py', 'np.int64']))}
+
+
+def _form_tags(form, prefix='form'):
+    if not form:
+        return (prefix + ':plain',)
+    return tuple(f'{prefix}:{k}={v}' for k, v in sorted(form.items()))
 
 
 def _is_float(dtype):
@@ -134,35 +189,54 @@ def _is_float(dtype):
 # ---------------------------------------------------------------------------------------------
 # real code, canonical answers (same text as the driver prints)
 # ---------------------------------------------------------------------------------------------
-def _impl_front_op(op, a, axis, step, analog, default_args=False):
+def _spell_front(base, axis, step, analog, default_args, form):
+    """(args, kwargs, text) of the call as the form spells it: keywords, positional in the signature order, or mixed."""
+    if default_args:
+        return (), {}, f'{base}(x)'
+    sp = (form or {}).get('spelling', 'kw')
+    ax, st = _axis_obj(axis, form), _step_obj(step, form)
+    tn = type(st).__name__
+    if sp == 'pos':
+        if base == 'fronts':
+            return (ax, st), {}, f'fronts(x, {axis}, {tn}({step}))'
+        return (ax, st, analog), {}, f'{base}(x, {axis}, {tn}({step}), {analog})'
+    if sp == 'mixed':
+        if base == 'fronts':
+            return (ax,), {'step': st}, f'fronts(x, {axis}, step={tn}({step}))'
+        return (ax,), {'step': st, 'analog': analog}, f'{base}(x, {axis}, step={tn}({step}), analog={analog})'
+    if base == 'fronts':
+        return (), {'axis': ax, 'step': st}, f'fronts(x, axis={axis}, step={tn}({step}))'
+    return (), {'axis': ax, 'step': st, 'analog': analog}, f'{base}(x, axis={axis}, step={tn}({step}), analog={analog})'
+
+
+def _call_front(base, a, axis, step, analog, default_args, form):
+    from ibldsp import utils
+    fn = {'fronts': utils.fronts, 'rises': utils.rises, 'falls': utils.falls}[base]
+    args, kw, text = _spell_front(base, axis, step, analog, default_args, form)
+    return fn(a, *args, **kw), text
+
+
+def _impl_front_op(op, a, axis, step, analog, default_args=False, form=None):
     """The real code on the array object `a` (NOT a copy).  Returns (answer, argument was modified by the call); the second
     part is informational only (a tag, and a reason to follow up with more calls on the same object), never a disagreement."""
     before = a.tobytes()
-    res = _impl_front_op_raw(op, a, axis, step, analog, default_args)
+    res = _impl_front_op_raw(op, a, axis, step, analog, default_args, form)
     return res, a.tobytes() != before
 
 
-def _impl_front_op_raw(op, a, axis, step, analog, default_args=False):
+def _impl_front_op_raw(op, a, axis, step, analog, default_args=False, form=None):
     """op in fronts1/rises1/falls1/fronts2/rises2/falls2 on the real code."""
-    from ibldsp import utils
-    isf = _is_float(a.dtype)
-    kw = {}
-    if not default_args:
-        kw = {'axis': axis, 'step': step}
-        if op[:-1] != 'fronts':
-            kw['analog'] = analog
     try:
         with warnings.catch_warnings():
             warnings.simplefilter('ignore')
             if op.startswith('fronts'):
-                ind, sign = utils.fronts(a, **kw)
+                (ind, sign), _ = _call_front('fronts', a, axis, step, analog, default_args, form)
                 if a.ndim == 1:
                     assert ind.ndim == 1 and sign.ndim == 1 and len(ind) == len(sign)
                     return 'ok ind=' + _lst(ind) + ' sign=' + (','.join(_pol(s) for s in sign) or '-')
                 assert ind.ndim == 2 and ind.shape[0] == 2 and ind.shape[1] == len(sign)
                 return 'ok ' + (';'.join(f'{int(i)},{int(j)},{_pol(s)}' for i, j, s in zip(ind[0], ind[1], sign)) or '-')
-            fn = utils.rises if op.startswith('rises') else utils.falls
-            ind = fn(a, **kw)
+            ind, _ = _call_front(op[:-1], a, axis, step, analog, default_args, form)
             if a.ndim == 1:
                 assert ind.ndim == 1
                 return 'ok ' + _lst(ind)
@@ -172,15 +246,27 @@ def _impl_front_op_raw(op, a, axis, step, analog, default_args=False):
         return f'err {type(e).__name__}'
 
 
-def _step_as_seen(dtype, step):
-    """NumPy's scalar rule: a Python float compared with / subtracted from a float32 array is taken as float32."""
-    return float(np.float32(step)) if np.dtype(dtype) == np.float32 else step
+def _step_as_seen(dtype, step, form=None):
+    """The mathematical value of the threshold the comparison uses.  NumPy's scalar rules: a NumPy scalar keeps its own
+    value (np.float32(1.2) IS 1.2000000477); a Python number compared with a float32 array is taken as float32."""
+    obj = _step_obj(step, form)
+    if isinstance(obj, np.generic):
+        return obj.item()
+    if np.dtype(dtype) == np.float32:
+        return float(np.float32(obj))
+    return obj
 
 
-def _line_front_op(op, a, axis, step, analog):
-    isf = _is_float(a.dtype)
+def _model_is_float(dtype, step, form=None):
+    """The model runs over Float when the data are floats or the threshold is not an integer, else over Int."""
+    return _is_float(dtype) or not float(_step_as_seen(dtype, step, form)).is_integer()
+
+
+def _line_front_op(op, a, axis, step, analog, form=None):
+    isf = _model_is_float(a.dtype, step, form)
     ty = 'f' if isf else 'i'
-    st = _f64bits(_step_as_seen(a.dtype, step)) if isf else int(step)
+    seen = _step_as_seen(a.dtype, step, form)
+    st = _f64bits(seen) if isf else int(seen)
     flat = a.reshape(-1)
     xs = (','.join(str(_f64bits(v)) for v in flat) if isf else ','.join(str(int(v)) for v in flat)) or '-'
     if a.ndim == 1:
@@ -278,12 +364,55 @@ def _open_case(case, tdir):
     import logging
     logging.getLogger('ibllib').setLevel(logging.ERROR)
     logging.getLogger('spikeglx').setLevel(logging.ERROR)
-    return D, spikeglx.Reader(b)
+    return D, spikeglx.Reader(str(b) if (case.get('form') or {}).get('path') == 'str' else b)
 
 
 def _slice_of(case):
+    """The slice object handed to the reader; its bounds are Python ints or NumPy ints, as the form says."""
+    a, b, c = case['slice']
+    t = (case.get('form') or {}).get('slice_ints', 'py')
+    if t != 'py':
+        cv = getattr(np, t)
+        a, b, c = [None if v is None else cv(v) for v in (a, b, c)]
+    return slice(a, b, c)
+
+
+def _py_slice(case):
     a, b, c = case['slice']
     return slice(a, b, c)
+
+
+def _thr_obj(case):
+    t = (case.get('form') or {}).get('thr_type', 'py')
+    return case['thr'] if t == 'py' else getattr(np, t)(case['thr'])
+
+
+def _thr_seen32(obj):
+    """The float32 value `analog < threshold` / `analog >= threshold` effectively compares the float32 samples with.
+    Python float and np.float32: rounded to float32 (NumPy's scalar rule).  np.float64: the comparison runs in float64,
+    which for float32 samples is the comparison with the smallest float32 >= threshold."""
+    t32 = np.float32(obj)
+    if isinstance(obj, np.float64) and float(t32) < float(obj):
+        t32 = np.nextafter(t32, np.float32(np.inf))
+    return t32
+
+
+def _call_read_sync(sr, sl, case):
+    """read_sync spelled as the form says: keywords, or positional in the signature order (_slice, threshold, floor_percentile)."""
+    if case.get('default_args'):
+        return sr.read_sync(sl)
+    form = case.get('form') or {}
+    thr = _thr_obj(case)
+    floor = np.int64(case['floor']) if form.get('floor_type') == 'np.int64' else case['floor']
+    if form.get('spelling') == 'pos':
+        return sr.read_sync(sl, thr, floor)
+    return sr.read_sync(sl, threshold=thr, floor_percentile=floor)
+
+
+def _draw_read_form(rng):
+    return {'slice_ints': str(rng.choice(['py', 'int64', 'int32'])), 'spelling': str(rng.choice(['kw', 'pos'])),
+            'thr_type': str(rng.choice(['py', 'float64', 'float32'])), 'floor_type': str(rng.choice(['py', 'np.int64'])),
+            'path': str(rng.choice(['Path', 'str']))}
 
 
 def _rows_str(m):
@@ -300,14 +429,11 @@ def _impl_readsync(case, tdir):
     D, sr = _open_case(case, tdir)
     try:
         sl = _slice_of(case)
-        kw = {}
-        if not case.get('default_args'):
-            kw = {'threshold': case['thr'], 'floor_percentile': case['floor']}
         with warnings.catch_warnings():
             warnings.simplefilter('ignore')
             try:
-                out = sr.read_sync(sl, **kw)
-                full = _rows_str(out) + f' dtype={out.dtype}'
+                out = _call_read_sync(sr, sl, case)
+                full = _rows_str(out)
             except Exception as e:  # noqa
                 full = f'err {type(e).__name__}'
             try:
@@ -317,13 +443,13 @@ def _impl_readsync(case, tdir):
             via_read = None
             if case.get('default_args'):
                 try:
-                    via_read = _rows_str(sr.read(nsel=sl)[1])
+                    via_read = _rows_str((sr.read(sl) if (case.get('form') or {}).get('spelling') == 'pos' else sr.read(nsel=sl))[1])
                 except Exception as e:  # noqa
                     via_read = f'err {type(e).__name__}'
             # external parts handed to the model
             gains = np.asarray(sr.channel_conversion_sample2v[sr.type], dtype=np.float64)
             pct = '-'
-            thr = case['thr'] if not case.get('default_args') else 1.2
+            thr = _thr_seen32(_thr_obj(case)) if not case.get('default_args') else np.float32(1.2)
             floor = case['floor'] if not case.get('default_args') else 10
             an = sr.read_sync_analog(sl)
             if an is not None and floor:
@@ -333,7 +459,7 @@ def _impl_readsync(case, tdir):
                     pct = ','.join(str(_f32bits(v)) for v in p) or '-'
                 except Exception:  # noqa
                     pct = 'E'
-        rows = D[sl]
+        rows = D[_py_slice(case)]
         if case['stream'] == 'nidq':
             st = 'nidq ' + ' '.join(str(int(c)) for c in case['cfg'])
         else:
@@ -394,7 +520,7 @@ def _gen_1d_cases(ctx, count):
         axis = int(rng.choice([-1, 0]))
         if kind <= 3:      # 0/1 trains
             x = _gen_binary_train(rng, n)
-            dtype = str(rng.choice(['int8', 'int8', 'int16', 'int32', 'int64', 'float64']))
+            dtype = str(rng.choice(['int8', 'int8', 'int16', 'int32', 'int64', 'float64', 'float32']))
             default = bool(rng.random() < 0.5)
             for op, step in (('fronts1', 1), ('rises1', 1), ('falls1', -1)):
                 out.append(dict(op=op, x=x, dtype=dtype, axis=-1 if default else axis, step=step, analog=False,
@@ -404,7 +530,7 @@ def _gen_1d_cases(ctx, count):
             x = [int(v) for v in rng.integers(-lv, lv + 1, size=n)]
             if n and rng.random() < 0.5:   # piecewise constant
                 x = [x[i - i % int(rng.integers(1, 4))] for i in range(n)]
-            dtype = str(rng.choice(['int16', 'int32', 'int64', 'float64']))
+            dtype = str(rng.choice(['int16', 'int32', 'int64', 'float64', 'float32']))
             step = int(rng.integers(1, 2 * lv + 2))
             if dtype == 'float64' and rng.random() < 0.4:
                 step = step - 0.5
@@ -413,15 +539,21 @@ def _gen_1d_cases(ctx, count):
             out.append(dict(op='falls1', x=x, dtype=dtype, axis=axis, step=-step, analog=False, default_args=False, cls='levels'))
         else:              # analog traces around the threshold
             if rng.random() < 0.6:
-                thr = float(rng.choice([1.2, 3.0, 0.5, 2.5, -1.0]))
-                eps = float(np.spacing(thr)) if rng.random() < 0.5 else 0.25
-                pool = [thr - eps, thr, thr + eps, thr - 3.0, thr + 3.0, 0.0]
+                thr = float(rng.choice([1.2, 3.0, 0.5, 2.5, -1.0, 1.3]))
+                dtype = 'float64' if rng.random() < 0.7 else 'float32'
+                t = np.dtype(dtype).type
+                tt = t(thr)
+                if rng.random() < 0.5:
+                    pool = [np.nextafter(tt, t(-10)), tt, np.nextafter(tt, t(10)), t(thr - 3.0), t(thr + 3.0), t(0.0)]
+                else:
+                    pool = [t(thr - 0.25), tt, t(thr + 0.25), t(thr - 3.0), t(thr + 3.0), t(0.0)]
                 x = [float(pool[int(i)]) for i in rng.integers(0, len(pool), size=n)]
-                dtype = 'float64'
             else:
                 thr = int(rng.integers(-3, 4))
                 x = [int(v) for v in rng.integers(thr - 2, thr + 3, size=n)]
                 dtype = str(rng.choice(['int64', 'int16']))
+                if rng.random() < 0.3:      # raw integer trace, threshold between two levels
+                    thr = thr + 0.5
             out.append(dict(op='rises1', x=x, dtype=dtype, axis=axis, step=thr, analog=True, default_args=False, cls='analog'))
             out.append(dict(op='falls1', x=x, dtype=dtype, axis=axis, step=thr, analog=True, default_args=False, cls='analog'))
     return out
@@ -566,7 +698,7 @@ def _gen_nidq_case(rng, default_args=False):
     if default_args:
         thr, floor = 1.2, 10
     else:
-        thr = float(rng.choice([1.2, 0.5, 2.5, 1.0]))
+        thr = float(rng.choice([1.2, 0.5, 2.5, 1.0, 1.3, 0.7]))
         floor = int(rng.choice([10, 10, 0]))
     D = rng.integers(-32768, 32768, size=(ns, nc)).astype(np.int64)
     lsb = rmax / 32768
@@ -588,6 +720,8 @@ def _gen_nidq_case(rng, default_args=False):
     D[:, -1] = _gen_words(rng, ns)
     case = dict(op='readsync', stream='nidq', cfg=cfg, ns=ns, rmax=rmax, thr=thr, floor=floor, slice=_gen_slice(rng, ns),
                 default_args=default_args, D=[int(v) for v in D.reshape(-1)])
+    if rng.random() < 0.6:
+        case['form'] = _draw_read_form(rng)
     if (not default_args) and xa and not floor and rng.random() < 0.5:
         # threshold exactly equal to the calibrated value of one sample
         c = mn + ma + int(rng.integers(0, xa))
@@ -601,8 +735,11 @@ def _gen_nidq_case(rng, default_args=False):
 def _gen_imec_case(rng, default_args=True):
     fixture = IMEC_FIXTURES[int(rng.integers(0, len(IMEC_FIXTURES)))]
     ns = int(rng.choice([1, 2, 3, 7, 16, 33]))
-    return dict(op='readsync', stream='imec', fixture=fixture, ns=ns, sync=_gen_words(rng, ns), fill_seed=int(rng.integers(0, 2 ** 31)),
+    case = dict(op='readsync', stream='imec', fixture=fixture, ns=ns, sync=_gen_words(rng, ns), fill_seed=int(rng.integers(0, 2 ** 31)),
                 slice=_gen_slice(rng, ns), default_args=default_args, thr=1.2, floor=10)
+    if rng.random() < 0.6:
+        case['form'] = _draw_read_form(rng)
+    return case
 
 
 def _selection_empty(case):
@@ -682,13 +819,55 @@ def _impl_ttl(case, tdir):
 # ---------------------------------------------------------------------------------------------
 # correspondence
 # ---------------------------------------------------------------------------------------------
+SPLIT_FORMS_FULL = ('i16', 'i16col', 'u16')                     # compared word by word
+SPLIT_FORMS_MORE = ('i32', 'i32u', 'i64', 'strided', 'negstride', 'colC', 'colF', 'colslice', 'readonly')   # compared as whole arrays
+
+
+def _split_array(vals, form):
+    """The int16 samples `vals` held in the representation `form` (same 16-bit words in every form)."""
+    a16 = np.array(vals, dtype=np.int16)
+    if form == 'i16':
+        return a16.copy()
+    if form == 'i16col':
+        return a16.reshape(-1, 1).copy()
+    if form == 'u16':
+        return a16.view(np.uint16).copy()
+    if form == 'i32':                           # wider integers holding the signed values
+        return a16.astype(np.int32)
+    if form == 'i32u':                          # wider integers holding the 16-bit patterns 0..65535
+        return a16.view(np.uint16).astype(np.int32)
+    if form == 'i64':
+        return a16.astype(np.int64)
+    if form == 'strided':
+        big = np.full(2 * a16.size, 7, dtype=np.int16); big[::2] = a16
+        return big[::2]
+    if form == 'negstride':
+        return np.ascontiguousarray(a16[::-1])[::-1]
+    if form == 'colC':                          # the sync column of a C-ordered (n, 3) block of samples: a non-contiguous view
+        blk = np.full((a16.size, 3), 7, dtype=np.int16); blk[:, -1] = a16
+        return blk[:, -1]
+    if form == 'colF':
+        blk = np.asfortranarray(np.full((a16.size, 3), 7, dtype=np.int16)); blk[:, -1] = a16
+        return blk[:, -1]
+    if form == 'colslice':                      # (n, 1) non-contiguous view, what raw[_slice, [sync]] looks like
+        blk = np.full((a16.size, 3), 7, dtype=np.int16); blk[:, -1] = a16
+        return blk[:, -1:]
+    if form == 'readonly':
+        a = a16.copy(); a.setflags(write=False)
+        return a
+    raise ValueError(form)
+
+
 def _split_forms(vals):
     import spikeglx
-    a16 = np.array(vals, dtype=np.int16)
     res, pure = {}, {}
-    for name, arr in (('i16', a16.copy()), ('i16col', a16.reshape(-1, 1).copy()), ('u16', a16.view(np.uint16).copy())):
+    for name in SPLIT_FORMS_FULL + SPLIT_FORMS_MORE:
+        arr = _split_array(vals, name)
         before = arr.tobytes()
-        res[name] = spikeglx.split_sync(arr)
+        try:
+            res[name] = spikeglx.split_sync(arr)
+        except Exception as e:  # noqa
+            res[name] = f'err {type(e).__name__}'
         pure[name] = arr.tobytes() == before
     return res, pure
 
@@ -710,16 +889,25 @@ def correspondence(ctx):
         assert ans.startswith('ok '), ans[:60]
         mrows += ans[3:].split(',')
     assert len(mrows) == 65536
+    mmat = np.array([[int(ch) for ch in r] for r in mrows], dtype=np.int64)
     for fname, out in forms.items():
-        shape_ok = out.shape == (65536, 16) and out.dtype == np.int8
+        shape_ok = (not isinstance(out, str)) and out.shape == (65536, 16)      # values, not the result dtype, are compared
         if not shape_ok:
-            ctx.compare('split', {'op': 'split', 'form': fname, 'x': 'all'}, f'shape={out.shape} dtype={out.dtype}', 'shape=(65536, 16) dtype=int8',
-                        tags=('split',))
+            got = out if isinstance(out, str) else f'shape={out.shape}'
+            ctx.compare('split', {'op': 'split', 'form': fname, 'x': 'all'}, got, 'shape=(65536, 16)', tags=('split',))
             continue
-        strs = [''.join(map(str, r)) for r in out.tolist()]
-        for x, a, b in zip(vals, strs, mrows):
-            ctx.compare('split', {'op': 'split', 'form': fname, 'x': x}, a, b, nontrivial=(x != 0), tags=('split', 'split:' + fname))
-    ctx.note('split_sync: all 65 536 int16 samples compared in 3 array forms (exhaustive over words)')
+        if fname in SPLIT_FORMS_FULL:
+            strs = [''.join(map(str, r)) for r in out.tolist()]
+            for x, a, b in zip(vals, strs, mrows):
+                ctx.compare('split', {'op': 'split', 'form': fname, 'x': x}, a, b, nontrivial=(x != 0), tags=('split', 'split:' + fname))
+        else:       # further representations of the same words: whole-array comparison, each wrong word reported
+            bad = np.flatnonzero((np.asarray(out, dtype=np.int64) != mmat).any(axis=1))
+            for lo in range(0, 65536, 4096):
+                ctx.case({'op': 'split', 'form': fname, 'x': f'{vals[lo]}..{vals[lo + 4095]}'}, True, ('split-forms', 'split:' + fname))
+            for i in bad[:40]:
+                ctx.mismatch('split', {'op': 'split', 'form': fname, 'x': vals[int(i)]}, ''.join(str(int(v)) for v in out[int(i)]), mrows[int(i)])
+    ctx.note('split_sync: all 65 536 int16 samples compared in %d array forms (exhaustive over words): %s'
+             % (len(forms), ', '.join(forms)))
 
     # ---- (b), (c) fronts / rises / falls ---------------------------------------------------------
     cases = _gen_1d_cases(ctx, ctx.n(2500, 40000)) + _gen_2d_cases(ctx, ctx.n(1500, 25000))
@@ -743,10 +931,14 @@ def correspondence(ctx):
             cases.append(dict(op=op, shape=[n, 16], x=[int(v) for v in m.reshape(-1)], dtype='int8', axis=0, step=step, analog=False,
                               default_args=False, cls='syncmatrix'))
     lines, impl, followups = [], [], []
+    for cse in cases:     # the FORM (layout, spelling, scalar types) is drawn independently of the VALUES
+        if cse['cls'] != 'box' and not cse.get('default_args') and rng.random() < 0.6:
+            cse['form'] = _draw_form(rng, 1 if 'shape' not in cse else 2, cse['dtype'], [cse['step']], [cse['op'][:-1]])
     for cse in cases:
-        a = _np_array(cse['x'], cse['dtype'], cse.get('shape'))
-        lines.append(_line_front_op(cse['op'], a, cse['axis'], cse['step'], cse['analog']))
-        ans, touched = _impl_front_op(cse['op'], a, cse['axis'], cse['step'], cse['analog'], cse.get('default_args', False))
+        form = cse.get('form')
+        a = _np_array(cse['x'], cse['dtype'], cse.get('shape'), form)
+        lines.append(_line_front_op(cse['op'], np.array(a), cse['axis'], cse['step'], cse['analog'], form))
+        ans, touched = _impl_front_op(cse['op'], a, cse['axis'], cse['step'], cse['analog'], cse.get('default_args', False), form)
         impl.append(ans)
         if touched:      # informational; followed up below by further calls on the same object (what a user would observe)
             cse['touched'] = True
@@ -757,6 +949,8 @@ def correspondence(ctx):
             fu = dict(op='seq', x=cse['x'], dtype=cse['dtype'], calls=[me, other, dict(me)], followup=True)
             if 'shape' in cse:
                 fu['shape'] = cse['shape']
+            if form:
+                fu['form'] = dict(form, step_type='py' if form['step_type'] == 'uint8' else form['step_type'])
             followups.append(fu)
     model = ctx.lean(lines)
     for cse, a, b in zip(cases, impl, model):
@@ -765,9 +959,10 @@ def correspondence(ctx):
         tags = (cse['op'], 'cls=' + cse['cls'], 'dtype=' + cse['dtype'], 'n=0' if n == 0 else 'n=1' if n == 1 else 'n=2..8' if n <= 8 else 'n>8',
                 f"axis={cse['axis']}", 'mode=analog' if cse['analog'] else 'mode=digital', 'default-args' if cse.get('default_args') else 'explicit-args',
                 'events' if has_event else 'no-events') + (('argument-modified(info)',) if cse.get('touched') else ())
+        tags += _form_tags(cse.get('form'))
         desc = {k: v for k, v in cse.items() if k not in ('cls', 'touched')}
         if cse['op'].startswith('fronts'):
-            b = _canon_model_fronts(b, _is_float(cse['dtype']), cse['op'] == 'fronts2')
+            b = _canon_model_fronts(b, _model_is_float(cse['dtype'], cse['step'], cse.get('form')), cse['op'] == 'fronts2')
         ctx.compare(cse['op'], desc, a, b, nontrivial=has_event, tags=tags)
 
     # ---- (b') sequences of calls on the same array object; arguments must stay untouched ----------
@@ -777,25 +972,30 @@ def correspondence(ctx):
                  f'calls on the same object')
     lines, impl, meta = [], [], []
     for cse in scases:
-        a = _np_array(cse['x'], cse['dtype'], cse.get('shape'))
-        orig = a.copy()
+        if 'form' not in cse and not cse.get('followup') and rng.random() < 0.6:
+            cse['form'] = _draw_form(rng, 1 if 'shape' not in cse else 2, cse['dtype'], [c['step'] for c in cse['calls']],
+                                     [c['fn'] for c in cse['calls']])
+        form = cse.get('form')
+        a = _np_array(cse['x'], cse['dtype'], cse.get('shape'), form)
+        orig = np.array(a)
         sfx = '2' if a.ndim == 2 else '1'
         for k, cl in enumerate(cse['calls']):
-            lines.append(_line_front_op(cl['fn'] + sfx, orig, cl['axis'], cl['step'], cl['analog']))   # model: the original data
-            ans, touched = _impl_front_op(cl['fn'] + sfx, a, cl['axis'], cl['step'], cl['analog'])     # code: the same object again
+            lines.append(_line_front_op(cl['fn'] + sfx, orig, cl['axis'], cl['step'], cl['analog'], form))   # model: the original data
+            ans, touched = _impl_front_op(cl['fn'] + sfx, a, cl['axis'], cl['step'], cl['analog'], False, form)     # code: the same object again
             impl.append(ans)
             meta.append((cse, k, touched))
     model = ctx.lean(lines)
     for (cse, k, touched), a, b in zip(meta, impl, model):
         cl = cse['calls'][k]
         if cl['fn'] == 'fronts':
-            b = _canon_model_fronts(b, _is_float(cse['dtype']), 'shape' in cse)
+            b = _canon_model_fronts(b, _model_is_float(cse['dtype'], cl['step'], cse.get('form')), 'shape' in cse)
         has_event = a not in ('ok -', 'ok ind=- sign=-')
         ctx.compare('seq:' + cl['fn'], {kk: v for kk, v in dict(cse, call_index=k).items() if kk != 'followup'}, a, b, nontrivial=has_event,
                     tags=('seq', f'seq-call#{k + 1}', 'seq:' + ('analog' if cl['analog'] else 'digital'), 'seq:dtype=' + cse['dtype'],
                           'seq:2-D' if 'shape' in cse else 'seq:1-D', f"seq:thr={cl['step']}" if cl['analog'] else 'seq:step',
                           'seq:' + '>'.join(c['fn'] for c in cse['calls']))
-                    + (('seq:argument-modified(info)',) if touched else ()) + (('seq:follow-up',) if cse.get('followup') else ()))
+                    + (('seq:argument-modified(info)',) if touched else ()) + (('seq:follow-up',) if cse.get('followup') else ())
+                    + _form_tags(cse.get('form'), 'seqform'))
 
     # ---- (d) read_sync on synthetic recordings ---------------------------------------------------
     rcases = []
@@ -813,7 +1013,7 @@ def correspondence(ctx):
         lines += list(line); impls.append(ans)
     model = ctx.lean(lines)
     for cse, ans, full_m, dig_m in zip(rcases, impls, model[0::2], model[1::2]):
-        nsel = len(range(*_slice_of(cse).indices(cse['ns'])))
+        nsel = len(range(*_py_slice(cse).indices(cse['ns'])))
         xa = cse['cfg'][2] if cse['stream'] == 'nidq' else 0
         tags = ('readsync', 'readsync:' + cse['stream'], f'analog_lines={xa}', 'floor' if (cse['floor'] if not cse.get('default_args') else 10) else 'nofloor',
                 'default-args' if cse.get('default_args') else 'explicit-args', 'nsel=0' if nsel == 0 else 'nsel=1' if nsel == 1 else 'nsel>1',
@@ -821,7 +1021,7 @@ def correspondence(ctx):
         if nsel == 0 and xa and (cse['floor'] if not cse.get('default_args') else 10):
             tags += ('empty-selection+analog+floor', 'empty+analog+floor via read(sync=True)' if cse.get('default_args') else 'empty+analog+floor explicit')
         ctx.compare('read_sync', dict(cse, view='read_sync'), ans['full'],
-                    full_m + (' dtype=int8' if full_m.startswith('ok') else ''), nontrivial=nsel > 0, tags=tags)
+                    full_m, nontrivial=nsel > 0, tags=tags + _form_tags(cse.get('form'), 'readform'))
         ctx.compare('read_sync_digital', dict(cse, view='read_sync_digital'), ans['digital'], dig_m, nontrivial=nsel > 0, tags=('readsync_digital',))
         if ans['via_read'] is not None:
             ctx.compare('read()[1]', dict(cse, view='read'), ans['via_read'], full_m, nontrivial=nsel > 0, tags=('read()[1]',))
@@ -852,22 +1052,24 @@ def correspondence(ctx):
 # direct oracles of the property on the real code (independent of the Lean model)
 # ---------------------------------------------------------------------------------------------
 def oracle_split(x, form='i16'):
-    """line k of the decoded word equals bit k of the word."""
+    """line k of every decoded word equals bit k of the word.  `x`: one int16 sample, a list of samples, or 'all'."""
     import spikeglx
-    a = np.array([x], dtype=np.int16)
-    if form == 'i16col':
-        a = a.reshape(-1, 1)
-    elif form == 'u16':
-        a = a.view(np.uint16).copy()
-    out = spikeglx.split_sync(a)
-    w = x & 0xFFFF
-    exp = [(w >> k) & 1 for k in range(16)]
-    if out.shape != (1, 16):
-        return f'split_sync returned shape {out.shape} for one sample'
-    got = [int(v) for v in out[0]]
-    if got != exp:
-        k = [i for i in range(16) if got[i] != exp[i]][0]
-        return f'word {w:#06x} (int16 {x}): line {k} decoded as {got[k]}, bit {k} of the word is {exp[k]}; lines={got}'
+    xs = list(range(-32768, 32768)) if x == 'all' else ([int(v) for v in x] if isinstance(x, (list, tuple)) else [int(x)])
+    a = _split_array(xs, form)
+    desc = f'{form}: {a.dtype}{list(a.shape)}' + ('' if a.flags.c_contiguous else ', non-contiguous view')
+    try:
+        out = np.asarray(spikeglx.split_sync(a))
+    except Exception as e:  # noqa
+        return f'split_sync raised {type(e).__name__}: {e} (samples {xs[:4]}{"..." if len(xs) > 4 else ""} given as {desc})'
+    if out.shape != (len(xs), 16):
+        return f'split_sync returned shape {out.shape} for {len(xs)} sample(s) given as {desc}'
+    w = np.array(xs, dtype=np.int64) & 0xFFFF
+    exp = (w[:, None] >> np.arange(16)[None, :]) & 1
+    bad = np.argwhere(out != exp)
+    if len(bad):
+        t, k = [int(v) for v in bad[0]]
+        return (f'sample {t} = {xs[t]} (word {int(w[t]):#06x}, given as {desc}): line {k} decoded as {int(out[t, k])}, '
+                f'bit {k} of the word is {int(exp[t, k])}; lines={[int(v) for v in out[t]]}')
     return None
 
 
@@ -888,13 +1090,13 @@ def _expected_events(x2, axis, pred):
     return ev
 
 
-def _check_call(a, orig, base, axis, step, analog, default_args=False):
+def _check_call(a, orig, base, axis, step, analog, default_args=False, form=None):
     """One call of fronts/rises/falls on the array object `a`; `orig` is a copy of the data taken before any call.
     The result must be the change points of the ORIGINAL data (what the caller passed in before any call)."""
     from ibldsp import utils
     nd = orig.ndim
     ax = axis % nd
-    st = _step_as_seen(orig.dtype, step)
+    st = _step_as_seen(orig.dtype, step, form)
     x2 = orig.tolist() if nd == 2 else [[v] for v in orig.tolist()]       # 1-D: a column, events along axis 0
     eax = ax if nd == 2 else 0
     if base == 'fronts':
@@ -904,21 +1106,18 @@ def _check_call(a, orig, base, axis, step, analog, default_args=False):
     else:
         pred = (lambda p, c, d: (not p < st) and c < st) if analog else (lambda p, c, d: d <= st)    # noqa
     exp = _expected_events(x2, eax, pred)
-    kw = {}
-    if not default_args:
-        kw = {'axis': axis, 'step': step}
-        if base != 'fronts':
-            kw['analog'] = analog
-    call = f'{base}(x' + ''.join(f', {k}={v}' for k, v in kw.items()) + ')'
+    call = _spell_front(base, axis, step, analog, default_args, form)[2]
+    if form:
+        call += f' [x: {orig.dtype}, layout {form.get("layout", "C")}]'
     try:
         with warnings.catch_warnings():
             warnings.simplefilter('ignore')
+            res, _ = _call_front(base, a, axis, step, analog, default_args, form)
             if base == 'fronts':
-                ind, sign = utils.fronts(a, **kw)
-                sign = [float(s) for s in sign]
+                ind, sign = res
+                sign = [float(v) for v in sign]
             else:
-                ind = (utils.rises if base == 'rises' else utils.falls)(a, **kw)
-                sign = None
+                ind, sign = res, None
     except Exception as e:  # noqa
         return f'{call} raised {type(e).__name__}: {e}'
     ind = np.asarray(ind)
@@ -942,17 +1141,18 @@ def _check_call(a, orig, base, axis, step, analog, default_args=False):
 
 def oracle_front(case):
     """fronts / rises / falls return exactly the change points (with polarity), in ascending (C) order."""
-    a = _np_array(case['x'], case['dtype'], case.get('shape'))
-    return _check_call(a, a.copy(), case['op'][:-1], case['axis'], case['step'], case['analog'], case.get('default_args', False))
+    a = _np_array(case['x'], case['dtype'], case.get('shape'), case.get('form'))
+    return _check_call(a, np.array(a), case['op'][:-1], case['axis'], case['step'], case['analog'], case.get('default_args', False),
+                       case.get('form'))
 
 
 def oracle_seq(case):
     """Several detections in sequence on the SAME array object: each must return the change points of the original
     trace the caller holds (a user calls rises(x) and then falls(x) on one trace and expects both event sets)."""
-    a = _np_array(case['x'], case['dtype'], case.get('shape'))
-    orig = a.copy()
+    a = _np_array(case['x'], case['dtype'], case.get('shape'), case.get('form'))
+    orig = np.array(a)
     for n, c in enumerate(case['calls']):
-        r = _check_call(a, orig, c['fn'], c['axis'], c['step'], c['analog'])
+        r = _check_call(a, orig, c['fn'], c['axis'], c['step'], c['analog'], False, case.get('form'))
         if r:
             return f'call {n + 1} of {len(case["calls"])} on the same array: ' + r
     return None
@@ -965,19 +1165,18 @@ def oracle_readsync(case):
         D, sr = _open_case(case, tdir)
         try:
             sl = _slice_of(case)
-            kw = {} if case.get('default_args') else {'threshold': case['thr'], 'floor_percentile': case['floor']}
-            thr = 1.2 if case.get('default_args') else case['thr']
+            thr = 1.2 if case.get('default_args') else float(_thr_obj(case))
             floor = 10 if case.get('default_args') else case['floor']
             with warnings.catch_warnings():
                 warnings.simplefilter('ignore')
                 try:
-                    outs = {'read_sync': sr.read_sync(sl, **kw)}
+                    outs = {'read_sync': _call_read_sync(sr, sl, case)}
                     if case.get('default_args'):
-                        outs['read()[1]'] = sr.read(nsel=sl)[1]
+                        outs['read()[1]'] = (sr.read(sl) if (case.get('form') or {}).get('spelling') == 'pos' else sr.read(nsel=sl))[1]
                     dig = sr.read_sync_digital(sl)
                 except Exception as e:  # noqa
                     return f'reading sync raised {type(e).__name__}: {e}'
-            rows = D[sl].astype(np.int64)
+            rows = D[_py_slice(case)].astype(np.int64)
             n = rows.shape[0]
             xa = case['cfg'][2] if case['stream'] == 'nidq' else 0
             expd = np.array([[(int(w) & 0xFFFF) >> k & 1 for k in range(16)] for w in rows[:, -1]], dtype=np.int64).reshape(n, 16)
@@ -1062,13 +1261,7 @@ def oracle_ttl(case):
 def oracle(case):
     op = case['op']
     if op == 'split':
-        if case['x'] == 'all':
-            for x in range(-32768, 32768):
-                r = oracle_split(x, case.get('form', 'i16'))
-                if r:
-                    return r
-            return None
-        return oracle_split(int(case['x']), case.get('form', 'i16'))
+        return oracle_split(case['x'], case.get('form', 'i16'))
     if op in ('fronts1', 'rises1', 'falls1', 'fronts2', 'rises2', 'falls2'):
         return oracle_front(case)
     if op == 'seq':
@@ -1083,7 +1276,8 @@ def oracle(case):
 def _size(case):
     op = case['op']
     if op == 'split':
-        return (0, abs(int(case['x'])) if case['x'] != 'all' else 0)
+        x = case['x']
+        return (0, 70000 if x == 'all' else sum(abs(int(v)) + 1 for v in x) if isinstance(x, list) else abs(int(x)))
     if op == 'readsync':
         return (3, case['ns'] * (sum(case['cfg']) if case['stream'] == 'nidq' else 400))
     if op == 'ttl':
@@ -1101,8 +1295,11 @@ def _small_candidates(ctx):
     """Neighbourhood searched when no mismatching case fails the oracle itself: small exhaustive boxes."""
     c = []
     for x in list(range(-4, 5)) + [255, 256, 257, -256, 32767, -32768, 0x5555, -0x5556] + [1 << k for k in range(15)]:
-        for form in ('i16', 'i16col', 'u16'):
+        for form in SPLIT_FORMS_FULL + SPLIT_FORMS_MORE:
             c.append(dict(op='split', x=x, form=form))
+    for form in SPLIT_FORMS_FULL + SPLIT_FORMS_MORE:      # several samples: strided / column views are only non-contiguous then
+        for xs in ([1, 2], [1, 0, -1], [2, 1, 0, -32768, 32767]):
+            c.append(dict(op='split', x=xs, form=form))
     for n in range(0, 6):
         for bits in itertools.product((0, 1), repeat=n):
             for op, step in (('fronts1', 1), ('rises1', 1), ('falls1', -1)):
